@@ -996,6 +996,7 @@ def run_impl(c):
             continue
         idx = (o["i"] % len(pool)) if needs else None
         before = [enc(m.model_dump()) for m in pool]
+        fs_before = [sorted(m.model_fields_set) for m in pool]     # "leaves the object as it was" includes which fields count as set
         st = {"skipped": False, "idx": idx, "exc": None, "real_exc": None, "axes": None}
         new = None
         try:
@@ -1058,6 +1059,8 @@ def run_impl(c):
         st["changed"] = [[i, d] for i, d in enumerate(after) if i >= len(before) or before[i] != d]
         st["before"] = before
         st["after"] = after
+        fs_after = [sorted(m.model_fields_set) for m in pool]
+        st["fields_set_changed"] = [i for i in range(len(fs_before)) if fs_before[i] != fs_after[i]]
         steps.append(st)
     return {"gv": GEFF_VERSION, "steps": steps}
 
@@ -1210,6 +1213,10 @@ def oracle(c, obs):
             return Failure(c, obs, f"op {j} ({k} {o.get('field', '')}) raised {st['real_exc']} but changed an object: "
                                    f"before={json.dumps(st['before'])[:400]} after={json.dumps(st['after'])[:400]}",
                            {"why": "not-atomic", "op": k})
+        if st["exc"] is not None and st.get("fields_set_changed"):
+            return Failure(c, obs, f"op {j} ({k} {o.get('field', '')}) raised {st['real_exc']} but changed which fields of object(s) "
+                                   f"{st['fields_set_changed']} count as set (model_fields_set; visible through exclude_unset dumps)",
+                           {"why": "not-atomic", "op": k, "fields_set": True})
         # 3. an assignment that would break an invariant raises a validation error
         if k == "assign" and o.get("canon") and o["field"] in ("axes", "display_hints", "node_props_metadata", "edge_props_metadata"):
             wb = dict(st["before"][st["idx"]])
